@@ -263,6 +263,12 @@ def _run_stage(ctx):
         "finding_C13_F4_unregistered_runs": len(f4_pending),
         "finding_C13_F4_sample": f4_pending[:2],
     }
+    f4_directed = [c for c in rows if c["spec"]["name"] == "f4_crib_late" and c["stoptip"] == 103]
+    ctx.cov["nursery"]["f4_directed_runs"] = len(f4_directed)
+    if not ctx.replay and len(f4_directed) < 6:
+        ctx.violation("harness_failed", "TestVerifNursery",
+                      {"why": "the directed schedule of known finding C13-F4 was not run"},
+                      signature="harness-nursery-f4", failing_input=False)
     if not ctx.replay and not eq_last:
         ctx.violation("harness_failed", "TestVerifNursery",
                       {"why": "no run promoted a preschool output with maturity == lastGradHeight "
